@@ -29,6 +29,11 @@ def gen_cases(rng, tier):
         fmt = spell(f1) + ((', ' + (f2 if g is None or rng.random() < 0.5 else spell(f2))) if f2 else '')
         yield {'op': 'pp', 'cls': rng.choice(CLASSES), 'bits': rand_bits(rng, n), 'fmt': fmt, 'width': rng.choice([0, 1, 10, 20, 40, 60, 80, 120, 200, rng.randrange(0, 201)]),
                'sep': rng.choice([' ', ' ', '', '_', ', ']), 'show_offset': rng.random() < 0.6, 'lsb0': rng.random() < 0.25, 'no_color': rng.random() < 0.7}
+    # every width for one and two ungrouped (':0') and grouped formats: the line-length computation has a branch per combination
+    for fmt in ('bin:0, hex:0', 'bin:0, oct:0', 'hex:0, bin:0', 'bin:0', 'hex:0', 'bin:8, hex:8', 'hex:4, oct:3', 'oct:0, hex:0', 'bytes:0, hex:0'):
+        bits = rand_bits(rng, rng.choice([96, 200, 264]), 'rand')
+        for w in (range(24, 128) if tier == 'thorough' else range(24, 128, 1 if fmt.count(':0') == 2 else 5)):
+            yield {'op': 'pp', 'cls': 'Bits', 'bits': bits, 'fmt': fmt, 'width': w, 'sep': rng.choice([' ', ' ', '_']), 'show_offset': w % 2 == 0, 'lsb0': False, 'no_color': True}
     for _ in range(N // 3):
         d = rng.choice(['uint8', 'int7', 'hex4', 'bin3', 'float16', 'float32', 'bool', 'bytes2', 'uintle16', '>h', 'oct3'])
         yield {'op': 'array_repr', 'dtype': d, 'n': rng.randrange(0, 6), 'trail': rand_bits(rng, rng.choice([0, 0, 1, 3])), 'seed': rng.randrange(1 << 30)}
@@ -86,7 +91,7 @@ def check_pp(c, text):
     body = []
     tail = None
     for ln in lines[1:]:
-        if ln.startswith(']'):
+        if ln == ']' or ln.startswith('] + trailing_bits'):       # a data line may start with ']' too (bytes column)
             tail = ln; break
         body.append(ln)
     if tail is None: return 'no closing bracket'
@@ -109,6 +114,12 @@ def check_pp(c, text):
         if trailing and not bits.endswith(trailing): return f'reported trailing bits {trailing!r} are not the end of the data'
     sep = c['sep']
     got = ['' for _ in names]
+    # group size in bits: an explicit length in the format, else the documented default for one format (two formats without a length: not documented, skipped)
+    lens = [int(x) for x in re.findall(r':\s*(\d+)', c['fmt'])] or [int(x) for x in re.findall(r'[a-z]+(\d+)', c['fmt'])]
+    if lens: g = lens[0] * (8 if 'bytes' in c['fmt'].split(',')[0] and re.search(r'bytes:?\s*\d', c['fmt'].split(',')[0]) else 1)
+    elif len(names) == 1: g = {'bin': 8, 'hex': 8, 'oct': 12, 'bytes': 32}.get(names[0])
+    else: g = None
+    line_bits = []
     for ln in body:
         if not ln: continue
         if len(ln) > c['width'] and c['width'] > 0:
@@ -122,8 +133,10 @@ def check_pp(c, text):
                 mm = re.match(r'^\s*(\d+): (.*)$', row)
             if not mm: return f'line {ln!r} has no offset column'
             row = mm.group(1) if c['lsb0'] else mm.group(2)
-        parts = row.split(' : ') if len(names) == 2 else [row]
+        if len(names) == 2: parts = row.rsplit(' : ', 1) if names[0] == 'bytes' else row.split(' : ', 1)    # a bytes column may itself contain ' : '
+        else: parts = [row]
         if len(parts) != len(names): return f'line {ln!r} does not have {len(names)} format columns'
+        nb = None
         for i, (nm, part) in enumerate(zip(names, parts)):
             if nm in DIG:
                 chunk = part
@@ -133,6 +146,16 @@ def check_pp(c, text):
                     if chx not in DIG[nm][1]: chunk = chunk.replace(chx, '')
                 if any(ch not in DIG[nm][1] for ch in chunk): return f'unexpected characters in {nm} column {part!r}'
                 got[i] += chunk
+                if nb is None: nb = len(chunk) * DIG[nm][0]
+        line_bits.append(nb)
+        # width: a line may be wider than `width` only when it holds a single group (ungrouped: the smallest displayable unit)
+        if nb is not None and g is not None and c['width'] > 0 and len(ln.rstrip()) > c['width']:
+            first_dig = next(nm for nm in names if nm in DIG)
+            unit = g if g > 0 else (24 if len(names) == 2 else DIG[first_dig][0])
+            if nb > unit: return f'line {ln.rstrip()!r} is {len(ln.rstrip())} characters wide (width={c["width"]}) although it holds {nb} bits, more than one unit of {unit} bits'
+    if g:
+        for nb in line_bits[:-1]:
+            if nb is not None and nb % g: return f'a line holds {nb} bits, which splits a group of {g} bits'
     for nm, g in zip(names, got):
         if nm in DIG:
             w, alphabet = DIG[nm]
